@@ -4,7 +4,8 @@
 //!   {"cfg": {"own": [{k,v}], "extent": {kind,a,b}, "ambient": [{k,v}], "clock": 0|t,
 //!            "rtf": <filter tree>, "csf": <filter tree>|{"op":"absent"}, "em": <emitter tree>,
 //!            "entry": "rt"|"rt_as_emitter"|"core"|"macro"|"macro_evt"|"direct"},
-//!    "expect": {"ev": {"props": [{k,v}], "ext": {kind,a,b}}, "deliver": [leaf id], "leaves": [leaf id],
+//!    "expect": {"ev": {"props": [{k,v}], "ext": {kind,a,b}}, "deliver": [{"id": leaf id, "ev": event it must receive}],
+//!               "leaves": [leaf id],
 //!               "eff": [filter leaf id, in order], "wraps": [filter leaf id], "bypass": bool},
 //!    "logB": [..]}   (the level-B log, drift only)
 //!
@@ -33,8 +34,9 @@ type KV = (String, i64);
 
 #[derive(Debug, Clone, PartialEq)]
 enum Ent {
-    Ctxt,
-    Clock,
+    /// the ambient context / clock was read; 0: of the runtime emitted through, else of a nested one
+    Ctxt(u64),
+    Clock(u64),
     F(u64),
     E(u64, Vec<KV>, (String, u64, u64)),
 }
@@ -106,6 +108,7 @@ fn eval_pred<P: Props>(pred: &str, evt: &Event<P>) -> bool {
         "ext_point" => evt.extent().map_or(false, |e| e.is_point()),
         "ext_range" => evt.extent().map_or(false, |e| e.is_range()),
         "ext_clock" => evt.extent().map_or(false, |e| e.is_point() && *e.as_point() == ts(CLOCK_T)),
+        "ext_9" => evt.extent().map_or(false, |e| e.is_point() && *e.as_point() == ts(9)),
         p => tool_error(&format!("unknown predicate {p}")),
     }
 }
@@ -113,17 +116,19 @@ fn eval_pred<P: Props>(pred: &str, evt: &Event<P>) -> bool {
 // ---- environment -------------------------------------------------------------------------
 struct ScriptClock {
     reading: Option<u64>,
+    id: u64,
     log: Log,
 }
 impl emit::Clock for ScriptClock {
     fn now(&self) -> Option<Timestamp> {
-        self.log.push(Ent::Clock);
+        self.log.push(Ent::Clock(self.id));
         self.reading.map(ts)
     }
 }
 
 struct FixedCtxt {
     props: Vec<(&'static str, i64)>,
+    id: u64,
     log: Log,
 }
 impl emit::Ctxt for FixedCtxt {
@@ -134,7 +139,7 @@ impl emit::Ctxt for FixedCtxt {
     fn exit(&self, _: &mut Self::Frame) {}
     fn close(&self, _: Self::Frame) {}
     fn with_current<R, F: FnOnce(&Self::Current) -> R>(&self, with: F) -> R {
-        self.log.push(Ent::Ctxt);
+        self.log.push(Ent::Ctxt(self.id));
         with(&self.props[..])
     }
 }
@@ -181,6 +186,7 @@ fn dyn_filter(t: &Value, log: &Log) -> DF {
             let r: &'static (dyn ErasedFilter + Send + Sync) = Box::leak(dyn_filter(&t["t"], log));
             Box::new(r)
         }
+        "assert" => Box::new(emit::runtime::AssertInternal(dyn_filter(&t["t"], log))),
         _ => tool_error(&format!("filter op {op}")),
     }
 }
@@ -213,7 +219,43 @@ fn dyn_emitter(t: &Value, log: &Log) -> DE {
             let r: &'static (dyn ErasedEmitter + Send + Sync) = Box::leak(dyn_emitter(&t["t"], log));
             Box::new(r)
         }
+        "assert" => Box::new(emit::runtime::AssertInternal(dyn_emitter(&t["t"], log))),
+        "wrapfn" => {
+            let kind = t["kind"].as_str().unwrap().to_string();
+            Box::new(dyn_emitter(&t["t"], log).wrap_emitter(emitter::wrapping::from_fn(move |output, evt| match kind.as_str() {
+                "drop" => {}
+                "pass" => output.emit(evt),
+                "prepend" => output.emit(evt.map_props(|p| ("a", 77i64).and_props(p))),
+                k => tool_error(&format!("wrapfn kind {k}")),
+            })))
+        }
+        "rt" => Box::new(nested_runtime(t, dyn_emitter(&t["t"], log), log)),
         _ => tool_error(&format!("emitter op {op}")),
+    }
+}
+
+/// A Runtime used as a destination: its own filter, ambient properties and clock.
+fn nested_runtime<E: Emitter>(t: &Value, em: E, log: &Log) -> Runtime<E, DF, FixedCtxt, ScriptClock, emit::Empty> {
+    let id = t["id"].as_u64().unwrap();
+    Runtime::build(
+        em,
+        dyn_filter(&t["f"], log),
+        FixedCtxt { props: pairs(&t["amb"]), id, log: log.clone() },
+        ScriptClock { reading: match t["clock"].as_u64().unwrap() { 0 => None, c => Some(c) }, id, log: log.clone() },
+        emit::Empty,
+    )
+}
+
+/// A user-defined generic wrapping (the static counterpart of `wrapping::from_fn`).
+struct KindWrapping(String);
+impl emitter::wrapping::Wrapping for KindWrapping {
+    fn wrap<O: Emitter, E: ToEvent>(&self, output: O, evt: E) {
+        match self.0.as_str() {
+            "drop" => {}
+            "pass" => output.emit(evt),
+            "prepend" => output.emit(evt.to_event().map_props(|p| ("a", 77i64).and_props(p))),
+            k => tool_error(&format!("wrapfn kind {k}")),
+        }
     }
 }
 
@@ -268,6 +310,9 @@ struct ErasedS<T>(T);
 struct AndS<L, R>(L, R);
 struct OrS<L, R>(L, R);
 struct WrapS<F, T>(F, T);
+struct AssertS<T>(T);
+struct WrapFnS<T>(T);
+struct RtS<T>(T);
 
 impl FShape for LeafS {
     type Out = PredLeaf;
@@ -325,6 +370,8 @@ unary_shape!(FShape, RefS, "ref", &'static T::Out, |v| Box::leak(Box::new(v)));
 unary_shape!(FShape, BoxS, "box", Box<T::Out>, |v| Box::new(v));
 unary_shape!(FShape, ArcS, "arc", Arc<T::Out>, |v| Arc::new(v));
 unary_shape!(FShape, ErasedS, "erased", Box<dyn ErasedFilter>, |v| Box::new(v));
+unary_shape!(FShape, AssertS, "assert", emit::runtime::AssertInternal<T::Out>, |v| emit::runtime::AssertInternal(v));
+unary_shape!(EShape, AssertS, "assert", emit::runtime::AssertInternal<T::Out>, |v| emit::runtime::AssertInternal(v));
 unary_shape!(EShape, OptS, "opt", Option<T::Out>, |v| Some(v));
 unary_shape!(EShape, RefS, "ref", &'static T::Out, |v| Box::leak(Box::new(v)));
 unary_shape!(EShape, BoxS, "box", Box<T::Out>, |v| Box::new(v));
@@ -368,12 +415,31 @@ impl<F: FShape, T: EShape> EShape for WrapS<F, T> {
     }
 }
 
+impl<T: EShape> EShape for WrapFnS<T> {
+    type Out = Wrap<T::Out, KindWrapping>;
+    fn name() -> String {
+        format!("wrapfn({})", T::name())
+    }
+    fn build(t: &Value, log: &Log) -> Self::Out {
+        T::build(&t["t"], log).wrap_emitter(KindWrapping(t["kind"].as_str().unwrap().to_string()))
+    }
+}
+impl<T: EShape> EShape for RtS<T> {
+    type Out = Runtime<T::Out, DF, FixedCtxt, ScriptClock, emit::Empty>;
+    fn name() -> String {
+        format!("rt({})", T::name())
+    }
+    fn build(t: &Value, log: &Log) -> Self::Out {
+        nested_runtime(t, T::build(&t["t"], log), log)
+    }
+}
+
 fn shape_of(t: &Value) -> String {
     let op = t["op"].as_str().unwrap();
     match op {
         "and" | "or" => format!("{op}({},{})", shape_of(&t["l"]), shape_of(&t["r"])),
         "wrap" => format!("wrap({};{})", shape_of(&t["f"]), shape_of(&t["t"])),
-        "opt" | "ref" | "box" | "arc" | "erased" => format!("{op}({})", shape_of(&t["t"])),
+        "opt" | "ref" | "box" | "arc" | "erased" | "assert" | "wrapfn" | "rt" => format!("{op}({})", shape_of(&t["t"])),
         _ => op.to_string(),
     }
 }
@@ -384,8 +450,8 @@ fn run_entry<F: Filter, CF: Filter, E: Emitter>(cfg: &Value, rtf: F, csf: Option
     let own = pairs(&cfg["own"]);
     let own: &[(&'static str, i64)] = &own;
     let ext = extent_of(&cfg["extent"]);
-    let clock = ScriptClock { reading: match cfg["clock"].as_u64().unwrap() { 0 => None, t => Some(t) }, log: log.clone() };
-    let ctxt = FixedCtxt { props: pairs(&cfg["ambient"]), log: log.clone() };
+    let clock = ScriptClock { reading: match cfg["clock"].as_u64().unwrap() { 0 => None, t => Some(t) }, id: 0, log: log.clone() };
+    let ctxt = FixedCtxt { props: pairs(&cfg["ambient"]), id: 0, log: log.clone() };
     let evt = Event::new(emit::Path::new_raw("m"), emit::Template::literal("t"), ext.clone(), own);
     let entry = cfg["entry"].as_str().unwrap();
     match entry {
@@ -476,6 +542,7 @@ macro_rules! f_wrappers {
         reg_f::<BoxS<$t>>($r);
         reg_f::<ArcS<$t>>($r);
         reg_f::<ErasedS<$t>>($r);
+        reg_f::<AssertS<$t>>($r);
     };
 }
 macro_rules! e_wrappers {
@@ -485,6 +552,9 @@ macro_rules! e_wrappers {
         reg_e::<BoxS<$t>>($r);
         reg_e::<ArcS<$t>>($r);
         reg_e::<ErasedS<$t>>($r);
+        reg_e::<AssertS<$t>>($r);
+        reg_e::<WrapFnS<$t>>($r);
+        reg_e::<RtS<$t>>($r);
     };
 }
 // the sides of the depth-2 and/or filters
@@ -512,7 +582,8 @@ macro_rules! wrap_filters {
 }
 macro_rules! e_sides {
     ($cb:ident, $a:tt) => {
-        each!([LeafS, NoneS, AndS<LeafS, LeafS>, WrapS<LeafS, LeafS>, ErasedS<LeafS>, OptS<LeafS>, ArcS<LeafS>], $cb, $a)
+        each!([LeafS, NoneS, AndS<LeafS, LeafS>, WrapS<LeafS, LeafS>, ErasedS<LeafS>, OptS<LeafS>, ArcS<LeafS>,
+               WrapFnS<LeafS>, RtS<LeafS>, AssertS<LeafS>], $cb, $a)
     };
 }
 macro_rules! e_pair_r {
@@ -549,15 +620,16 @@ fn registry() -> Registry {
     each!([LeafS], e_wrappers, (r));
     e_sides!(e_pair_l, (r));
     each!([LeafS, NoneS, AndS<LeafS, LeafS>, WrapS<LeafS, LeafS>, ErasedS<LeafS>, OptS<LeafS>], e_wrap_t, (r));
-    each!([AndS<LeafS, LeafS>, WrapS<LeafS, LeafS>, WrapS<OrS<LeafS, LeafS>, LeafS>, NoneS, ErasedS<LeafS>], e_wrappers, (r));
+    each!([AndS<LeafS, LeafS>, WrapS<LeafS, LeafS>, WrapS<OrS<LeafS, LeafS>, LeafS>, NoneS, ErasedS<LeafS>,
+           WrapFnS<LeafS>, RtS<LeafS>, AndS<LeafS, WrapFnS<LeafS>>], e_wrappers, (r));
     reg
 }
 
 // ---- judging -----------------------------------------------------------------------------
 fn ent_json(e: &Ent) -> Value {
     match e {
-        Ent::Ctxt => json!({"t": "ctxt"}),
-        Ent::Clock => json!({"t": "clock"}),
+        Ent::Ctxt(id) => json!({"t": "ctxt", "id": id}),
+        Ent::Clock(id) => json!({"t": "clock", "id": id}),
         Ent::F(id) => json!({"t": "f", "id": id}),
         Ent::E(id, p, x) => json!({"t": "e", "id": id,
             "ev": {"props": p.iter().map(|(k, v)| json!({"k": k, "v": v})).collect::<Vec<_>>(),
@@ -579,26 +651,34 @@ fn ids(v: &Value) -> Vec<u64> {
 fn judge(log: &[Ent], case: &Value, checks: &mut u64) -> Vec<Value> {
     let ex = &case["expect"];
     let mut bad = Vec::new();
-    let want_ev = (
-        ex["ev"]["props"].as_array().unwrap().iter().map(|e| (e["k"].as_str().unwrap().to_string(), e["v"].as_i64().unwrap())).collect::<Vec<KV>>(),
-        (ex["ev"]["ext"]["kind"].as_str().unwrap().to_string(), ex["ev"]["ext"]["a"].as_u64().unwrap(), ex["ev"]["ext"]["b"].as_u64().unwrap()),
-    );
-    let deliver = ids(&ex["deliver"]);
+    let ev_of = |v: &Value| {
+        (
+            v["props"].as_array().unwrap().iter().map(|e| (e["k"].as_str().unwrap().to_string(), e["v"].as_i64().unwrap())).collect::<Vec<KV>>(),
+            (v["ext"]["kind"].as_str().unwrap().to_string(), v["ext"]["a"].as_u64().unwrap(), v["ext"]["b"].as_u64().unwrap()),
+        )
+    };
+    // destination -> the event it must receive
+    let deliver: Vec<(u64, (Vec<KV>, (String, u64, u64)))> =
+        ex["deliver"].as_array().unwrap().iter().map(|d| (d["id"].as_u64().unwrap(), ev_of(&d["ev"]))).collect();
     // every destination exactly once iff predicted, never otherwise
     for leaf in ids(&ex["leaves"]) {
         *checks += 1;
         let got = log.iter().filter(|e| matches!(e, Ent::E(i, _, _) if *i == leaf)).count();
-        let want = usize::from(deliver.contains(&leaf));
+        let want = usize::from(deliver.iter().any(|d| d.0 == leaf));
         if got != want {
             bad.push(json!({"clause": "exactly-once", "leaf": leaf, "want_deliveries": want, "got": got}));
         }
     }
-    // what a destination receives is the fully built event (or the untouched one when direct)
+    // what a destination receives is the fully built event (the untouched one when direct;
+    // as rewritten by the wrappings / nested runtimes on the way)
     for e in log {
         if let Ent::E(id, p, x) = e {
             *checks += 1;
-            if (p, x) != (&want_ev.0, &want_ev.1) {
-                bad.push(json!({"clause": "delivered-event", "leaf": id, "want": ex["ev"], "got": ent_json(e)["ev"]}));
+            if let Some((_, want)) = deliver.iter().find(|d| d.0 == *id) {
+                if (p, x) != (&want.0, &want.1) {
+                    let want_json = ex["deliver"].as_array().unwrap().iter().find(|d| d["id"].as_u64() == Some(*id)).map(|d| d["ev"].clone());
+                    bad.push(json!({"clause": "delivered-event", "leaf": id, "want": want_json, "got": ent_json(e)["ev"]}));
+                }
             }
         }
     }
@@ -620,7 +700,7 @@ fn judge(log: &[Ent], case: &Value, checks: &mut u64) -> Vec<Value> {
     // emitting straight to a destination bypasses clock and ambient context
     if ex["bypass"].as_bool().unwrap() {
         *checks += 1;
-        if log.iter().any(|e| matches!(e, Ent::Ctxt | Ent::Clock)) {
+        if log.iter().any(|e| matches!(e, Ent::Ctxt(0) | Ent::Clock(0))) {
             bad.push(json!({"clause": "direct-bypass", "got": log_json(log)}));
         }
     }
